@@ -64,7 +64,11 @@ def job_logic(spec):
         for c in contacts:
             val[str(c["key"])] = {"near": bool(m.eval(c["near"], model_completion=True)), "accepted": bool(m.eval(c["accepted"], model_completion=True))}
         tors = {str(k): float(m.eval(t.e, model_completion=True).as_fraction()) for k, t in info["torsions"].items()}
-        return {"cfg": cfg_name, "order": order, "contacts": val, "torsions": tors}
+        kd = 0
+        for d in m.decls():
+            if d.name().startswith("kdorder"):
+                kd = m[d].as_long()
+        return {"cfg": cfg_name, "order": order, "contacts": val, "torsions": tors, "kdorder": kd}
     bad_tables = PL.tables_match_spec()
     if bad_tables:
         res["verdicts"].append({"ob": f"donor/acceptor/edge tables differ from the pinned transcript: {bad_tables}", "v": "sat", "key": "find_pairs:tables",
@@ -92,8 +96,27 @@ def job_logic(spec):
                 neg.append(z3.BoolVal(True))                                            # an edge used twice
             occupied += [(lower, ei), (upper, ej)]
         v, m, _ = eng.prove(path, z3.Or(neg + [z3.BoolVal(False)]))
+        key = "find_pairs:soundness"
+        if v == "sat":
+            # is it exactly the recorded finding (one O2' contact counted as two hydrogen bonds, O2' being listed both as ribose acceptor and as
+            # base donor)?  re-ask with the lenient reading in which a single accepted O2' contact on the edges justifies the pair
+            neg2 = []
+            occ2 = []
+            for bp in bps:
+                ct, ei, ej = bp.lw.value[0], bp.lw.value[1], bp.lw.value[2]
+                o2 = [c["accepted"] for c in contacts if "O2'" in (c["key"][0][1], c["key"][1][1]) and c["edges"].get(lower) and c["edges"].get(upper)
+                      and ei in c["edges"][lower] and ej in c["edges"][upper]]
+                neg2.append(z3.Not(z3.Or([two_contacts(ei, ej, base_only=False)] + o2)))
+                cis = tor_formula(lower, upper)
+                neg2.append(z3.Not(cis) if ct == "c" else cis)
+                if (lower, ei) in occ2 or (upper, ej) in occ2:
+                    neg2.append(z3.BoolVal(True))
+                occ2 += [(lower, ei), (upper, ej)]
+            v2, _, _ = eng.prove(path, z3.Or(neg2 + [z3.BoolVal(False)]))
+            if v2 == "unsat":
+                key = "find_pairs:soundness:single-O2prime-contact-counted-twice"
         res["verdicts"].append({"ob": f"a reported pair {[b.lw.value for b in bps]} is not justified (two contacts on its edges, cis/trans, edge used once)",
-                                "v": v, "key": "find_pairs:soundness", "w": wit(m)})
+                                "v": v, "key": key, "w": wit(m)})
         # completeness
         neg = []
         reported = {b.lw.value for b in bps}
@@ -175,6 +198,12 @@ def replay_logic(w):
                     a, b = atom_of_xyz[self.pts[i]], atom_of_xyz[self.pts[j]]
                     if a[0] == b[0] or kind_of(a) == kind_of(b) or cval.get(tuple(sorted((a, b))), {}).get("near"):
                         out.append((i, j))
+            if w["order"] == "sym":
+                cross = [p for p in out if atom_of_xyz[self.pts[p[0]]][0] != atom_of_xyz[self.pts[p[1]]][0]
+                         and kind_of(atom_of_xyz[self.pts[p[0]]]) != kind_of(atom_of_xyz[self.pts[p[1]]])]
+                rest = [p for p in out if p not in cross]
+                perms = list(itertools.permutations(range(len(cross))))
+                return rest + [cross[i] for i in perms[w.get("kdorder", 0) % len(perms)]]
             return out if w["order"] == "fwd" else list(reversed(out))
 
     def fake_angle(v1, v2):
@@ -478,7 +507,7 @@ def _dispatch(spec):
 def run(rep, tier):
     from vlib.core import Violation, VERIF
     from vlib.par import pmap, Crashed
-    specs = [("logic", ("GC", "fwd")), ("logic", ("AU-rev", "fwd")), ("logic", ("AG-sugar", "fwd")), ("logic", ("GC", "rev")),
+    specs = [("logic", ("GC", "fwd")), ("logic", ("AU-rev", "fwd")), ("logic", ("AG-sugar", "fwd")), ("logic", ("GC", "rev")), ("logic", ("GU-mixed", "sym")),
              ("contact", (2, False)), ("contact", (0, True)), ("cistrans", ("G", "C")), ("cistrans", ("U", "A")),
              ("normal", ("G", None)), ("normal", ("C", None)), ("normal", ("A", "N7")), ("normal", ("U", "O2"))]
     if tier != "quick":
